@@ -434,7 +434,7 @@ def run(ctx):
         return info
 
     from ..common import run_systematic
-    from ..gen.templates import single_step_cases
+    from ..gen.templates import distinct_step_cases
 
     quick = ctx.tier == "quick"
 
@@ -442,5 +442,5 @@ def run(ctx):
         for c in cases:
             yield {"prog": c["prog"], "steps": c["steps"]}
 
-    run_systematic(ctx, strip(single_step_cases(names, None, params=(0, 1) if quick else (0, 1, 2, 5, 7), sites=4 if quick else 8, extra=[0])), guarded(ctx, chk), keep_one_in=6 if quick else 1, label="template-single-steps")
+    run_systematic(ctx, strip(distinct_step_cases(ctx.shard, ctx.nshards, names, None, params=(0, 1) if quick else (0, 1, 2, 5, 7), extra=[0])), guarded(ctx, chk), keep_one_in=4 if quick else 1, label="template-single-steps", presharded=True)
     run_cases(ctx, case_strategy(6 if ctx.tier == "quick" else 12, names), guarded(ctx, chk), ctx.budget(800, 40000))
